@@ -39,7 +39,7 @@ rep.coverage.update(evaluations=ev, distinct_nontrivial=nt, exhaustive=exh, samp
 
 # ---- (b) concurrent requests: the real fetch.go under the controlled scheduler
 # (n, sub, entry, small, preempt, env, shards, fault kinds (0 = all three))
-QUICK = [(3, "", "lib", True, 3, 1, 48, 1), (2, "", "lib", False, 2, 1, 1, 0), (2, "top", "lib", False, 2, 1, 1, 0), (2, "", "wasi", False, 2, 1, 1, 0),
+QUICK = [(3, "", "lib", True, 3, 1, 48, 1), (2, "", "lib", True, 3, 1, 4, 0), (2, "", "lib", False, 2, 1, 1, 0), (2, "top", "lib", False, 2, 1, 1, 0), (2, "", "wasi", False, 2, 1, 1, 0),
          (3, "", "lib", False, 2, 1, 8, 0), (3, "", "wasi", True, 1, 1, 1, 0), (4, "", "lib", True, 1, 1, 1, 0)]
 THOROUGH = [(3, "", "lib", True, 3, 1, 48, 0), (3, "", "wasi", True, 3, 1, 48, 1), (2, "", "lib", False, 3, 2, 4, 0), (2, "top", "lib", False, 3, 2, 4, 0),
             (2, "", "wasi", False, 3, 2, 4, 0), (3, "", "lib", False, 2, 2, 16, 0), (3, "top", "wasi", True, 2, 1, 8, 0), (4, "", "lib", True, 2, 1, 16, 0)]
@@ -53,7 +53,7 @@ try:
         for sh in range(shards):
             o = os.path.join(cw, "c%d_%d.json" % (ci, sh))
             if os.path.exists(o): os.remove(o)
-            cmd = [FETCHX, "-n", str(n), "-sub", sub, "-entry", entry, "-preempt", str(pre), "-env", str(env), "-faults", "-faultkinds", str(kinds), "-shard", str(sh), "-nshards", str(shards),
+            cmd = [FETCHX, "-n", str(n), "-sub", sub, "-entry", entry, "-preempt", str(pre), "-env", str(env), "-faults", "-jumps", "-faultkinds", str(kinds), "-shard", str(sh), "-nshards", str(shards),
                    "-budget", "6000" if thorough else "1200", "-scratch", scratch, "-out", o] + (["-small"] if small else [])
             jobs.append((ci, sh, o, cmd))
     def runj(j):
@@ -81,7 +81,7 @@ rep.coverage.update(schedules=conc["execs"], scheduling_points=conc["points"], s
     concurrency_rule="n concurrent requests (checkDownloadAndExtractLib with and without an internal directory, checkDownloadAndExtractWasiSDK) for one destination; "
         "fetch.go is the working-tree file with only its os/syscall/net/http/time import paths redirected; every os call, flock, close and http.Get is a scheduling point on the "
         "real file system; flock is one scheduler mutex per inode owned by the open description (dropped on Close); the environment may fail a download (connection error, "
-        "body cut half way, status 500) within the env bound; all schedules within the preemption bound; oracle at every point: if the destination exists it holds every "
+        "body cut half way, status 500) or let a day pass during a time.Sleep (should fetch.go poll) within the env bound; all schedules within the preemption bound; oracle at every point: if the destination exists it holds every "
         "archived file with exactly its bytes, a request that returned success implies the destination exists; at the end: no deadlock/livelock, with no failed download "
         "every request succeeds")
 rep.assumptions += ["concurrency: requests modelled as threads of one process (fetch.go shares no in-process state; flock conflicts between open descriptions either way)",
